@@ -337,3 +337,19 @@ def depths(obs):
 def coqrun_build():
     from . import coqrun
     return coqrun.BUILD
+
+
+# ----------------------------------------------------------------------------- cases without a snapshot
+def no_snapshot(ctx, desc, raised):
+    """C02 / C05 / C07 speak about the snapshots that ARE delivered; that every due tracepoint delivers one is C06 (and that
+    nothing is raised into the host is C01).  A case without a snapshot is therefore skipped here - and counted."""
+    ctx.notes["cases_without_snapshot"] = ctx.notes.get("cases_without_snapshot", 0) + 1
+    if len(ctx.skipped) < 5:
+        ctx.skip("no snapshot delivered (%r): nothing to examine for this property (C06 / C01 cover it)" % (raised,))
+
+
+def too_many_skipped(ctx, total):
+    n = ctx.notes.get("cases_without_snapshot", 0)
+    if total and n * 2 > total:
+        ctx.fail("%d of %d cases delivered no snapshot: the property can no longer be examined on this tree" % (n, total), None,
+                 kind="correspondence", tag="mostly-no-snapshot")
